@@ -510,6 +510,54 @@ class G:
         return self.gen(self.rand_type(2), depth)
 
 
+ROW_USES = [
+    "%s.%s", "%s.%s", "%s.%s",
+    "std.record.values %s", "std.record.fields %s", "std.record.has_field \"%s\" %s", "std.record.get \"%s\" %s",
+    "std.record.map (fun k v => v) %s", "std.record.to_array %s", "std.record.length %s", "std.record.is_empty %s",
+    "std.record.filter (fun k v => true) %s", "std.record.update \"%s\" 1 %s", "std.record.remove \"%s\" %s",
+    "%s & {extra = 1}", "%s == %s", "(fun q => q.%s) %s", "(%s : {_ : Number})", "(%s : {%s : Number})", "(%s | {%s | Number, ..})",
+]
+
+
+def row_program(rng):
+    """A statically typed block in which an unannotated lambda-bound record is projected several
+    times and coerced to a dictionary (std.record.*), in every order: row inference with tails that
+    are already assigned when the next use is checked."""
+    fs = rng.shuffle(["fa", "fb", "fc"])[:rng.range(1, 3)]
+    params = ["r"] if rng.chance(3, 4) else ["r", "s"]
+    lets = []
+    for i in range(rng.range(2, 6)):
+        u = rng.choice(ROW_USES)
+        v = rng.choice(params)
+        f = rng.choice(fs + ["zz"] if rng.chance(1, 6) else fs)
+        n = u.count("%s")
+        if u.startswith("%s.%s") or u.startswith("(%s : {%s") or u.startswith("(%s | {%s"):
+            e = u % (v, f)
+        elif u == "%s == %s":
+            e = u % (v, rng.choice(params))
+        elif u.startswith("(fun q"):
+            e = u % (f, v)
+        elif n == 2:
+            e = u % (f, v)
+        else:
+            e = u % v
+        lets.append("let x%d = %s in" % (i, e))
+    body = rng.choice(["1", "x0", "x1", "r", "std.record.values r", "r.%s" % fs[0]])
+    fun = "(fun %s => %s %s)" % (" ".join(params), " ".join(lets), body)
+    vals = rng.choice([["1", "2", "3"], ["1", "\"a\"", "true"], ["{}", "[]", "null"]])
+    arg = "{" + ", ".join("%s = %s" % (f, vals[i % 3]) for i, f in enumerate(fs)) + (", other = 0" if rng.chance(1, 4) else "") + "}"
+    c = rng.below(6)
+    if c < 2:
+        return "(%s %s) : _" % (fun, " ".join([arg] * len(params)))
+    if c < 3:
+        return "(%s %s) : Number" % (fun, " ".join([arg] * len(params)))
+    if c < 4:
+        return "%s : _" % fun
+    if c < 5:
+        return "let f : _ = %s in f %s" % (fun, " ".join([arg] * len(params)))
+    return "{ g = %s, v : _ = g %s }" % (fun, " ".join([arg] * len(params)))
+
+
 VALUES = ["0", "1", "2", "3", "(-1)", "0.5", "(-0.5)", "1.5", "1e10", "1e-10", "9007199254740992", "9223372036854775807", "9223372036854775808",
           "18446744073709551615", "18446744073709551616", "(-9223372036854775809)", "1e400", "(-1e400)", "1e-400", "4294967296", "2147483648",
           '""', '"a"', '"abc"', '"\u00e9"', '"\u65e5\u672c\u8a9e"', '"a\\nb"', '"%"', '"\U0001F44D\U0001F3FD"', '"a,b,c"', '"[a-z]+"', '"("', '"0"', '"1e400"',
